@@ -237,6 +237,7 @@ type c15Net struct {
 	srvIP netip.Addr
 	state map[[2]int][2]uint64 // (dscp, path) -> last (rx, tx) reported
 	bad   map[int]bool         // paths whose server answers with an unusable (stratum 0) response this round
+	basic bool                 // servers without interleaved support: every answer is a basic-mode response
 }
 
 func (nw *c15Net) handler(pi int) func(s *peer.NTPServer, dg []byte, from netip.AddrPort, rx time.Time) {
@@ -263,7 +264,10 @@ func (nw *c15Net) handler(pi int) func(s *peer.NTPServer, dg []byte, from netip.
 			fl.Stratum = 0
 		}
 		nw.mu.Unlock()
-		if inter && st[0] == f.Origin {
+		nw.mu.Lock()
+		basicOnly := nw.basic
+		nw.mu.Unlock()
+		if inter && st[0] == f.Origin && !basicOnly {
 			fl.Origin, fl.Transmit = f.Receive, st[1]
 		}
 		nw.mu.Lock()
@@ -324,10 +328,24 @@ func c15Rounds(r *ev.Run) {
 			spies[i] = &spyFilter{}
 			clients[i] = &client.SCIONClient{Log: log, DSCP: uint8(i + 1), InterleavedMode: interleavedCfg, Filter: spies[i]}
 		}
+		// every third scenario: servers that answer interleaved requests in basic mode, so that clients
+		// configured for interleaved mode never get into it
+		nw.mu.Lock()
+		nw.basic = sc%3 == 2
+		basicOnly := nw.basic
+		nw.mu.Unlock()
 		prevPath := map[int]int{} // dscp -> path of the previous round, if that round ended in interleaved mode
-		for round := 0; round < 1+rng.IntN(4); round++ {
+		nRounds := 1 + rng.IntN(4)
+		if basicOnly {
+			nRounds = 3 + rng.IntN(3)
+		}
+		for round := 0; round < nRounds; round++ {
 			var offered []int
-			switch rng.IntN(6) {
+			sw := rng.IntN(6)
+			if basicOnly && round > 0 {
+				sw = 2 + rng.IntN(4) // mostly large offers, so that the path of the previous round is usually offered again
+			}
+			switch sw {
 			case 0: // none
 			case 1:
 				offered = rng.Perm(nPaths)[:1+rng.IntN(2)]
@@ -473,6 +491,23 @@ func c15Rounds(r *ev.Run) {
 					} else {
 						r.Class("round:withdrawn-path->reset-and-basic-request")
 					}
+				}
+			}
+			// every client that does not keep a path is reset together with its filter at the start of the round
+			for i := range clients {
+				d := i + 1
+				pp, had := prevPath[d]
+				if had && wasInter[d] && slices.Contains(offered, pp) {
+					continue
+				}
+				if spies[i].resets == resetsBefore[i] {
+					w["client_dscp"] = d
+					r.Violation("MeasureClockOffsetSCION|wrong-value:client that is not in interleaved mode (or whose path was withdrawn) was not reset together with its filter", id, w)
+					bad = true
+					break
+				}
+				if interleavedCfg && basicOnly && round > 0 {
+					r.Class("round:client configured for interleaved mode but answered in basic mode is reset")
 				}
 			}
 			// result = fault-tolerant midpoint over one value per participant
